@@ -501,6 +501,32 @@ def D6_bond_order_precedence(repo, clause):
         inverted = len(eq) == 1 and not ok
         subset = [(t, pol) for t, pol in gs if isinstance(t, ast.Compare) and len(t.ops) == 1 and isinstance(t.ops[0], (ast.LtE, ast.Lt, ast.GtE, ast.Gt, ast.In))] + \
             [(t, pol) for t, pol in gs if isinstance(t, ast.Call) and call_name(t) in ("issubset", "issuperset")]
+        # decide the match test on representatives: pair types in {x, y, w}, rule sets {x}, {x, y}, {x, y, w} - it must hold exactly when {a1, a2} == rule set
+        from .common import eval_small, Undecidable, expand
+        rv = loop.target.elts[0].id if isinstance(loop.target, (ast.Tuple, ast.List)) and loop.target.elts and isinstance(loop.target.elts[0], ast.Name) else None
+        sem = None
+        if rv is not None and gs:
+            try:
+                bad = []
+                for a1v in "xyw":
+                    for a2v in "xyw":
+                        for R in (frozenset("x"), frozenset("xy"), frozenset("xyw")):
+                            env_ = {fn.params[0]: a1v, fn.params[1]: a2v, rv: R}
+                            got = all(bool(eval_small(expand(fn, t, stop_names=[rv]), env_)) == pol for t, pol in gs if any(
+                                isinstance(y, ast.Name) and y.id in (rv, fn.params[0], fn.params[1]) for y in ast.walk(expand(fn, t, stop_names=[rv]))))
+                            if got != (frozenset((a1v, a2v)) == R):
+                                bad.append((a1v, a2v, sorted(R)))
+                sem = (not bad, bad[:1])
+            except Undecidable:
+                sem = None
+        if sem is not None:
+            okm, ex = sem
+            obs.append(Ob("D6", clause, fn, r, okm,
+                          "a user rule's bond order is returned %s" % ("exactly when the rule's atom-type set equals the pair's (36 representative combinations)" if okm else
+                                                                      "for the pair (%s, %s) under the rule set %s, which is %s: the match test is not set equality - a two-type rule such as ({'C_R','N_R'}, 1.41) "
+                                                                      "then also captures C_R-C_R bonds (or a rule misses its own pair)" % (ex[0][0], ex[0][1], ex[0][2], "NOT its pair" if frozenset(ex[0][:2]) != frozenset(ex[0][2]) else "its pair but is skipped")),
+                          slot="rule-match", positive="robust" if not okm else False))
+            continue
         if not eq and subset:
             obs.append(Ob("D6", clause, fn, r, False,
                           "a user rule's bond order is returned under the SUBSET test `%s`: a two-type rule such as ({'C_R','N_R'}, 1.41) then also captures C_R-C_R and N_R-N_R bonds" % ast.unparse(subset[0][0]),
